@@ -1150,10 +1150,15 @@ def FIBER(
 
     A = input.signal
 
+    def step_size(A):
+        # step for a maximum nonlinear phase `phi_max`, from the peak of the total power of both polarizations
+        peak = (np.abs(np.atleast_2d(A)) ** 2).sum(axis=0).max()
+        return phi_max / (gamma * peak) if peak > 0 else length
+
     h = (
         length
         if (beta_2 == 0 and beta_3 == 0) or gamma == 0
-        else phi_max / (gamma * (np.abs(A[0]) ** 2 + np.abs(A[1]) ** 2)).max()
+        else step_size(A)
     )
 
     x_length = h
@@ -1172,7 +1177,7 @@ def FIBER(
             barra_progreso.update(100 * h / length)
 
         h = (
-            phi_max / (gamma * (np.abs(A[0]) ** 2 + np.abs(A[1]) ** 2)).max()
+            step_size(A)
             if gamma != 0
             else length
         )
